@@ -26,7 +26,7 @@ LEVEL_TEXT = (
     "is derived from independent shadow instances of the candidate readers, so the check is relative to 'the selected reader' as the "
     "property is; clean streams are also compared with what the meter model sent. Sampling, not proof."
 )
-RUNS = {"quick": 36000, "thorough": 500000}
+RUNS = {"quick": 36000, "thorough": 600000}
 CHUNK = {"quick": 200, "thorough": 1000}
 BUDGET_S = {"quick": 100, "thorough": 2400}
 RULE = (
